@@ -236,6 +236,16 @@ def gen_plan(r, tier, index):
 
 
 # ---------------------------------------------------------------------------- execution
+def _queue(c):
+    """Keys still sitting in a handle's write queue.  Private state of the backend: used only to make the oracle
+    STRICTER (which later failures on this handle have an explanation); where it cannot be read nothing is assumed."""
+    q = getattr(getattr(c, "_backend", None), "_write_queue", None)
+    try:
+        return tuple(k_ for (k_, _v) in q) if q else ()
+    except Exception:  # noqa: BLE001
+        return ()
+
+
 def _libname(i):
     return f"lib{i}.ukv"
 
@@ -375,7 +385,7 @@ def _run_plan(plan, trace=False):
                             handles[ad["h"]] = pickle.loads(blob)
                             hcb[ad["h"]] = cb
                             res.stats["probe:used_handle_shipped_to_another_process"] += 1
-                            if len(handles[ad["h"]]._backend._write_queue):
+                            if _queue(handles[ad["h"]]):
                                 inherited.add(ad["h"])
                                 res.stats["probe:shipped_handle_carried_a_write_queue"] += 1
                     c = handles[sp["h"]]
@@ -411,11 +421,8 @@ def _run_plan(plan, trace=False):
                         S.outcome = "exc"
                         S.exc = e
                     kern.set_phase(None)
-                    try:
-                        S.queue_keys = tuple(k_ for (k_, _v) in c._backend._write_queue)
-                        S.queue_left = len(S.queue_keys)
-                    except Exception:  # noqa: BLE001
-                        S.queue_left = 0
+                    S.queue_keys = _queue(c)
+                    S.queue_left = len(S.queue_keys)
                     S.shipped_dirty = sp["h"] in shipped_dirty
                     # L: read off the simulated OS what this process still holds
                     # (a descriptor on the LOCK file without a lock - fasteners keeps one after a timed-out
@@ -428,7 +435,7 @@ def _run_plan(plan, trace=False):
                     for sh in p.get("ships", ()):
                         if sh["after"] == si:
                             mailbox[sh["slot"]] = (pickle.dumps(handles[sh["h"]]), hcb[sh["h"]])
-                            if len(handles[sh["h"]]._backend._write_queue):
+                            if _queue(handles[sh["h"]]):
                                 shipped_dirty.add(sh["h"])
             return main
 
